@@ -1,14 +1,21 @@
 //! Correspondence harness: runs the real grenad implementation on generated inputs and
 //! writes inputs + observations as a case file for the extracted Coq model to replay.
+mod alloc_track;
 mod c14;
 mod c_file;
 mod c_hist;
+mod c_merge;
+mod c_open;
+mod c_sorter;
 mod gen;
 mod util;
 
 use std::fs::File;
 use std::io::BufWriter;
 use util::*;
+
+#[global_allocator]
+static GLOBAL: alloc_track::Tracking = alloc_track::Tracking;
 
 fn main() {
     let args: Vec<String> = std::env::args().collect();
@@ -34,7 +41,9 @@ fn main() {
     }
     let thorough = tier == "thorough";
     // keep panic messages of caught panics out of the logs
-    std::panic::set_hook(Box::new(|_| {}));
+    if std::env::var("GVERIF_PANIC").is_err() {
+        std::panic::set_hook(Box::new(|_| {}));
+    }
     let mut rng = Rng::new(seed);
     let mut cases = Cases::new(BufWriter::new(File::create(&out).unwrap()));
     match scenario.as_str() {
@@ -49,6 +58,12 @@ fn main() {
         "hist-c10" => { cases.prop = "C10".into(); c_hist::generate(&mut cases, &mut rng, thorough, "C10") }
         "iter-c04" => { cases.prop = "C04".into(); c_hist::generate_iter(&mut cases, &mut rng, thorough, "C04") }
         "iter-c05" => { cases.prop = "C05".into(); c_hist::generate_iter(&mut cases, &mut rng, thorough, "C05") }
+        "merge-c06" => { cases.prop = "C06".into(); c_merge::generate(&mut cases, &mut rng, thorough) }
+        "sorter-c07" => { cases.prop = "C07".into(); c_sorter::generate(&mut cases, &mut rng, thorough, "C07") }
+        "sorter-c08" => { cases.prop = "C08".into(); c_sorter::generate(&mut cases, &mut rng, thorough, "C08") }
+        "sorter-c17" => { cases.prop = "C17".into(); c_sorter::generate(&mut cases, &mut rng, thorough, "C17") }
+        "sorter-real" => { cases.prop = "C08".into(); c_sorter::generate_real(&mut cases, &mut rng) }
+        "open-c13" => { cases.prop = "C13".into(); c_open::generate(&mut cases, &mut rng, thorough) }
         "C14-sweep" => {
             match c14::sweep_all() {
                 None => println!("SWEEP ok 4294967296"),
